@@ -200,38 +200,106 @@ def run(index, rep, tier):
     with rep.section("R08.6"):
         rep.rule("R08.6", "the three single-child splice-out sites (suppress_unifurcations, encode_bipartitions, extract_subtree) merge edge lengths with the same None handling: removed length None -> child unchanged; child None -> takes the removed length; both -> sum")
         sites = [(TREE + ".suppress_unifurcations", None), (TREE + ".encode_bipartitions", None), (NODE + ".extract_subtree", None)]
-        forms = {}
         for q, _ in sites:
             fi = index.function(q)
-            found = None
-            for iff in ast.walk(fi.node):
-                if not isinstance(iff, ast.If):
-                    continue
-                cp = compare_parts(iff.test)
-                if not (cp and cp[1] == "IsNot" and is_none(cp[2]) and norm(cp[0]).endswith("edge.length")):
-                    continue
-                removed = norm(cp[0])
-                inner = [x for x in iff.body if isinstance(x, ast.If)]
-                if len(inner) != 1 or len(iff.body) != 1:
-                    continue
-                cp2 = compare_parts(inner[0].test)
-                if not (cp2 and cp2[1] == "Is" and is_none(cp2[2]) and norm(cp2[0]).endswith("edge.length")):
-                    continue
-                child = norm(cp2[0])
-                a = inner[0].body[0] if inner[0].body else None
-                b = inner[0].orelse[0] if inner[0].orelse else None
-                form = (
-                    isinstance(a, ast.Assign) and norm(a.targets[0]) == child and norm(a.value) == removed,
-                    isinstance(b, ast.AugAssign) and isinstance(b.op, ast.Add) and norm(b.target) == child and norm(b.value) == removed,
-                    len(inner[0].body) == 1 and len(inner[0].orelse) == 1,
-                )
-                found = (iff, form, removed, child)
+            res = merge_semantics(fi)
+            if res is None:
+                raise AnalysisError("R08.6: %s: the edge-length merge at the single-child splice-out site was not recognised" % q)
+            iff, removed, child, table = res
+            want = {(False, False): "C+R", (False, True): "R", (True, False): "C", (True, True): "None"}     # (removed is None, child is None) -> child afterwards
+            bad = {k: v for k, v in table.items() if v != want[k]}
+            rep.check(not bad, "R08.6", fi.qualname, "length merge at the splice-out site", fn_where(fi, iff),
+                      "%s merges lengths canonically: removed None -> child unchanged; child None -> takes the removed length; both -> sum" % fi.name,
+                      "%s no longer merges the spliced-out node's edge length (`%s`) into its single child's (`%s`) the way its sibling sites do - cases (removed is None, child is None) -> child afterwards: %s, expected %s: path lengths through the removed node change, and extraction disagrees with in-place pruning"
+                      % (fi.qualname, removed, child, {k: table[k] for k in sorted(bad)}, {k: want[k] for k in sorted(bad)}))
+
+
+def merge_semantics(fi):
+    """Find the statement that merges a spliced-out node's edge length into its child's and evaluate it
+    symbolically for the four (removed is None, child is None) cases.  Returns (stmt, removed, child, table)."""
+    def is_len(e):
+        return isinstance(e, ast.Attribute) and e.attr == "length" and isinstance(e.value, ast.Attribute) and e.value.attr == "edge"
+
+    pm = parent_map(fi.node)
+    for aug in ast.walk(fi.node):
+        if not (isinstance(aug, ast.AugAssign) and isinstance(aug.op, ast.Add) and is_len(aug.target) and is_len(aug.value)):
+            continue
+        child, removed = norm(aug.target), norm(aug.value)
+        # the outermost enclosing `if` whose test is decidable from the two None-nesses
+        frag = None
+        cur = aug
+        while True:
+            par = pm.get(cur)
+            if not isinstance(par, ast.If):
                 break
-            forms[q] = found
-            ok = found is not None and all(found[1])
-            rep.check(ok, "R08.6", fi.qualname, "length merge at the splice-out site", fn_where(fi, found[0] if found else None),
-                      "%s merges lengths canonically: `if X.len is not None: if C.len is None: C.len = X.len else: C.len += X.len`" % fi.name,
-                      "%s no longer merges the spliced-out node's edge length into its single child the way its sibling sites do (missing child length must take the removed length, otherwise the two add): path lengths through the removed node change, and extraction disagrees with in-place pruning" % fi.qualname)
+            try:
+                _eval_test(par.test, {removed: "R", child: "C"})
+            except _Unknown:
+                break
+            frag = par
+            cur = par
+        if frag is None:
+            continue
+        table = {}
+        for rn in (False, True):
+            for cn in (False, True):
+                env = {removed: None if rn else "R", child: None if cn else "C"}
+                try:
+                    _exec_block([frag], env, removed, child)
+                except _Unknown:
+                    return None
+                v = env[child]
+                table[(rn, cn)] = "None" if v is None else "+".join(sorted(v.split("+")))
+        return frag, removed, child, table
+    return None
+
+
+class _Unknown(Exception):
+    pass
+
+
+def _eval_test(t, env):
+    if isinstance(t, ast.UnaryOp) and isinstance(t.op, ast.Not):
+        return not _eval_test(t.operand, env)
+    if isinstance(t, ast.BoolOp):
+        vals = [_eval_test(v, env) for v in t.values]
+        return all(vals) if isinstance(t.op, ast.And) else any(vals)
+    cp = compare_parts(t)
+    if cp and cp[1] in ("Is", "IsNot") and is_none(cp[2]) and norm(cp[0]) in env:
+        r = env[norm(cp[0])] is None
+        return r if cp[1] == "Is" else not r
+    raise _Unknown()
+
+
+def _eval_val(e, env):
+    if norm(e) in env:
+        return env[norm(e)]
+    if isinstance(e, ast.BinOp) and isinstance(e.op, ast.Add):
+        a, b = _eval_val(e.left, env), _eval_val(e.right, env)
+        if a is None or b is None:
+            raise _Unknown()       # would raise TypeError at run time
+        return a + "+" + b
+    raise _Unknown()
+
+
+def _exec_block(stmts, env, removed, child):
+    for st in stmts:
+        if isinstance(st, ast.If):
+            _exec_block(st.body if _eval_test(st.test, env) else st.orelse, env, removed, child)
+        elif isinstance(st, ast.Assign) and norm(st.targets[0]) in env:
+            env[norm(st.targets[0])] = _eval_val(st.value, env)
+        elif isinstance(st, ast.AugAssign) and isinstance(st.op, ast.Add) and norm(st.target) in env:
+            a, b = env[norm(st.target)], _eval_val(st.value, env)
+            if a is None or b is None:
+                raise _Unknown()
+            env[norm(st.target)] = a + "+" + b
+        elif isinstance(st, ast.Assign):
+            # a store to something else (e.g. the clone's own length in extract_subtree): not part of the merge
+            continue
+        elif isinstance(st, (ast.Pass, ast.Expr)):
+            continue
+        else:
+            raise _Unknown()
 
 
 def thin_clone_rule(index, rep, rid):
